@@ -196,7 +196,8 @@ def run_shard(spec, ctx):
             ctx.cls("step:" + st["op"])
         r0 = np.array(case["rels"][0])
         ctx.case({"g": gen.quant([g["rb"], g["rt"], g["bspace"], g["tspace"], g["lmin"], g["lmax"]], 1e-6), "rel": gen.quant(r0, 1e-6),
-                  "steps": [s["op"] for s in case["steps"]]}, bool(np.linalg.norm(r0[:2]) > 0 and np.linalg.norm(r0[3:]) > 0), sample_every=0)
+                  "steps": [s["op"] for s in case["steps"]]}, bool(np.linalg.norm(r0[:2]) > 0 and np.linalg.norm(r0[3:]) > 0), sample_every=0,
+                 sample={"geometry": {k: g[k] for k in ("kind", "rb", "rt", "bspace", "tspace", "bth", "tth", "lmin", "lmax", "rot", "base")}, "steps": case["steps"], "relative_pose": case["rels"][0]})
         try:
             run_case(case, ctx, bm)
         except Exception:
